@@ -318,3 +318,6 @@ Proof.
   - destruct (newest l2 ign j); reflexivity.
   - rewrite IH. destruct (newest l2 ign j); reflexivity.
 Qed.
+
+Global Arguments oname_eqb : simpl never.
+Global Arguments name_eqb : simpl never.
